@@ -61,7 +61,9 @@ func Compile(grammar *Grammar, opts Options) (*Tables, error) {
 	if opts.MinimizeDFA {
 		minimize(c.out, grammar)
 	}
-	if opts.Optimize {
+	if opts.Optimize && c.out.UsedLADepth == 0 {
+		// Note: multi-token lookahead chains (lalr(k) with k > 1) cannot be represented in the
+		// displacement encoding; such tables keep the default encoding.
 		numRules := len(c.out.RuleLen) // takes into account runtime lookahead rules
 		c.out.Optimized = Optimize(c.out.DefaultEnc, grammar.Terminals, numRules, opts.DefaultReduce)
 	}
